@@ -17,43 +17,56 @@ Proof.
   destruct (beq name n_query); reflexivity.
 Qed.
 
-(* ---- the model is the specification, call by call ---- *)
-Lemma custom_event_spec : forall ty rid ls n v,
-  custom_event rid ls n v = spec_call ty rid ls (ACustom n v).
+(* ---- the model is the specification, call by call, for ANY listener loop ---- *)
+Lemma custom_event_spec : forall nf ty rid n v,
+  custom_event nf rid n v = spec_call_g nf ty rid (ACustom n v).
 Proof.
-  intros ty rid ls n v. unfold custom_event, spec_call, invalid_call.
+  intros nf ty rid n v. unfold custom_event, spec_call_g, invalid_call.
   pose proof (reserved_msg_reserved n) as R.
   destruct (reserved_msg n) as [m|]; cbn [isSomeP] in R; rewrite <- R.
   - reflexivity.
   - destruct (is_valid_part n); reflexivity.
 Qed.
 
-Lemma event_call_spec_pf : forall ty rid ls a,
-  is_event a = true -> event_call ty rid ls a = spec_call ty rid ls a.
+Lemma event_call_g_spec_pf : forall nf ty rid a,
+  is_event a = true -> event_call_g nf ty rid a = spec_call_g nf ty rid a.
 Proof.
-  intros ty rid ls a E. destruct a; try discriminate E; cbn [event_call].
+  intros nf ty rid a E. destruct a; try discriminate E; cbn [event_call_g].
   - (* change *)
-    unfold change_event, spec_call. cbn [invalid_call].
+    unfold change_event, spec_call_g. cbn [invalid_call].
     destruct ty; try reflexivity;
       (destruct changed as [|kv c]; [reflexivity|]);
       (destruct ap as [|[[|kv' r']|]|e]; reflexivity).
   - (* add *)
-    unfold add_event, spec_call. cbn [invalid_call].
+    unfold add_event, spec_call_g. cbn [invalid_call].
     destruct ty; try reflexivity;
       (destruct (idx <? 0)%Z; [reflexivity|]);
       (destruct ap as [|[]|e]; reflexivity).
   - (* remove *)
-    unfold remove_event, spec_call. cbn [invalid_call].
+    unfold remove_event, spec_call_g. cbn [invalid_call].
     destruct ty; try reflexivity;
       (destruct (idx <? 0)%Z; [reflexivity|]);
       (destruct ap as [|v|e]; reflexivity).
   - (* create *)
-    unfold create_event, spec_call. cbn [invalid_call].
+    unfold create_event, spec_call_g. cbn [invalid_call].
     destruct ap as [|[]|e]; reflexivity.
   - (* delete *)
-    unfold delete_event, spec_call. cbn [invalid_call].
+    unfold delete_event, spec_call_g. cbn [invalid_call].
     destruct ap as [|v|e]; reflexivity.
   - apply custom_event_spec.
+Qed.
+
+Lemma spec_call_plain : forall ty rid ls a, spec_call_g (nf_plain ls) ty rid a = spec_call ty rid ls a.
+Proof.
+  intros ty rid ls a. unfold spec_call_g, spec_call.
+  destruct (invalid_call ty a); [reflexivity|]. destruct (empty_change a); [reflexivity|].
+  destruct (apply_fails a); [reflexivity|]. destruct (nothing_changed a); reflexivity.
+Qed.
+
+Lemma event_call_spec_pf : forall ty rid ls a,
+  is_event a = true -> event_call ty rid ls a = spec_call ty rid ls a.
+Proof.
+  intros ty rid ls a E. unfold event_call. rewrite (event_call_g_spec_pf _ _ _ _ E). apply spec_call_plain.
 Qed.
 
 (* ---- payloads exist for serialisable values ---- *)
@@ -147,8 +160,8 @@ Proof.
 Qed.
 
 (* ---- failed_publishes_nothing ---- *)
-Theorem failed_publishes_nothing_pf : forall ty rid ls a effs p,
-  is_event a = true -> event_call ty rid ls a = (effs, p) ->
+Theorem failed_publishes_nothing_g_pf : forall nf ty rid a effs p,
+  is_event a = true -> event_call_g nf ty rid a = (effs, p) ->
   (invalid_call ty a <> None \/ empty_change a = true \/ apply_fails a <> None \/ nothing_changed a = true) ->
   no_pub_no_listen effs /\
   (* and in the invalid / empty cases not even the apply handler runs *)
@@ -157,8 +170,8 @@ Theorem failed_publishes_nothing_pf : forall ty rid ls a effs p,
   (invalid_call ty a <> None -> p = invalid_call ty a) /\
   (invalid_call ty a = None -> empty_change a = false -> forall e, apply_fails a = Some e -> p = Some (PApply e)).
 Proof.
-  intros ty rid ls a effs p E H C. rewrite (event_call_spec_pf _ _ _ _ E) in H.
-  unfold spec_call in H.
+  intros nf ty rid a effs p E H C. rewrite (event_call_g_spec_pf _ _ _ _ E) in H.
+  unfold spec_call_g in H.
   destruct (invalid_call ty a) as [q|] eqn:I.
   { inversion H; subst. split; [intros e []|]. split; [reflexivity|]. split; [reflexivity|]. discriminate. }
   destruct (empty_change a) eqn:EC.
@@ -176,6 +189,15 @@ Proof.
     split; [intros X; exfalso; apply X; reflexivity|]. intros _ _ e' He'. discriminate He'. }
   exfalso. destruct C as [X|[X|[X|X]]]; try discriminate X; apply X; reflexivity.
 Qed.
+
+Theorem failed_publishes_nothing_pf : forall ty rid ls a effs p,
+  is_event a = true -> event_call ty rid ls a = (effs, p) ->
+  (invalid_call ty a <> None \/ empty_change a = true \/ apply_fails a <> None \/ nothing_changed a = true) ->
+  no_pub_no_listen effs /\
+  ((invalid_call ty a <> None \/ empty_change a = true) -> effs = []) /\
+  (invalid_call ty a <> None -> p = invalid_call ty a) /\
+  (invalid_call ty a = None -> empty_change a = false -> forall e, apply_fails a = Some e -> p = Some (PApply e)).
+Proof. intros ty rid ls a effs p. unfold event_call. apply failed_publishes_nothing_g_pf. Qed.
 
 (* ---- listener_payload ---- *)
 Lemma in_pre_not_listen : forall a rid l ev,
